@@ -101,20 +101,20 @@ WsCode(ws) == LET RECURSIVE C(_)
                   C(p) == IF p = 0 THEN 0 ELSE C(p - 1) * 6 + WCode(ws[p])
               IN C(Len(ws))
 RingCase(ws) == [id |-> 6000000 + WsCode(ws), fam |-> "ring", reqs |-> PlainReqs, scens |-> RingScens(ws),
-                 rows |-> 3, idx |-> 7, shots |-> 2 * RingLen(ws) + 1, script |-> Script("ok", 0)]
+                 rows |-> 3, idx |-> 7, shots |-> 2 * RingLen(ws), script |-> Script("ok", 0)]
 RingInit == \E n \in 1..3 : \E ws \in [1..n -> Weights] : st = InitSt(RingCase(ws))
 
 \* a request listed by two scenarios: its preprocessor keeps the iterator of the LAST scenario listing it
-IterCase(w1, w2, sc) ==
-    [id |-> 6100000 + (w1 * 10 + w2) * 41 + ScriptCode(sc), fam |-> "iter",
+IterScens(w1, w2) == << [name |-> "s1", weight |-> w1, items |-> <<ReqItem("a", 1, 0), ReqItem("b", 2, 0)>>],
+                        [name |-> "s2", weight |-> w2, items |-> <<ReqItem("a", 2, 0)>>] >>
+IterCase(w1, w2) ==
+    [id |-> 6100000 + (w1 * 10 + w2), fam |-> "iter",
      reqs |-> [a |-> RDef(PreM("next", "users"), Use("pre", "a", "uri"), "none", FALSE),
                b |-> RDef(PreM("next", "users"), Use("pre", "b", "hdr"), "none", TRUE),
                c |-> RDef(NoPre, NoUse, "none", FALSE)],
-     scens |-> << [name |-> "s1", weight |-> w1, items |-> <<ReqItem("a", 1, 0), ReqItem("b", 2, 0)>>],
-                  [name |-> "s2", weight |-> w2, items |-> <<ReqItem("a", 2, 0)>>] >>,
-     rows |-> 3, idx |-> 7, shots |-> 5, script |-> sc]
-IterInit == \E w1 \in {1, 2}, w2 \in {1, 2} : \E sc \in {Script("ok", 0), Script("status", 3), Script("transport", 2)} :
-               st = InitSt(IterCase(w1, w2, sc))
+     scens |-> IterScens(w1, w2),
+     rows |-> 3, idx |-> 7, shots |-> 2 * Len(RingOf(IterScens(w1, w2))), script |-> Script("ok", 0)]
+IterInit == \E w1 \in {1, 2, 3}, w2 \in {1, 2} : st = InitSt(IterCase(w1, w2))
 
 \* several instances: [next] under every interleaving (design level, NInst = 2) and on the real engine (M1, 4 instances)
 NextCase(rows, shots) ==
